@@ -36,6 +36,26 @@ type run struct {
 	aborting bool
 	closed   map[uintptr]bool
 	Panic    any
+	// branchFrom: the explorer takes alternatives only at points from this index on (a deterministic
+	// set-up prefix is executed on the default schedule and not branched over)
+	branchFrom int
+	branchTo   int // 0 = to the end
+}
+
+// BranchUntilHere ends the window opened by BranchFromHere.
+func BranchUntilHere() {
+	r, t := cur()
+	if t != nil {
+		r.branchTo = len(r.Points)
+	}
+}
+
+// BranchFromHere marks the current point: alternatives are explored only from here on.
+func BranchFromHere() {
+	r, t := cur()
+	if t != nil {
+		r.branchFrom = len(r.Points)
+	}
 }
 
 var (
@@ -214,9 +234,11 @@ func Spawn(f func()) {
 }
 
 type Result struct {
-	Points   []Point
-	Deadlock bool
-	Panic    any
+	Points     []Point
+	Deadlock   bool
+	Panic      any
+	BranchFrom int
+	BranchTo   int
 }
 
 // Setup, if set, runs before every execution outside the scheduler (goroutines it starts are free-running).
@@ -237,7 +259,7 @@ func runOnce(prefix []int, body func()) Result {
 	gmu.Lock()
 	R = nil
 	gmu.Unlock()
-	return Result{r.Points, r.Deadlock, r.Panic}
+	return Result{r.Points, r.Deadlock, r.Panic, r.branchFrom, r.branchTo}
 }
 
 type Stats struct {
@@ -270,7 +292,7 @@ func Explore(bound int, body func(), check func(Result, []int)) Stats {
 		pre := 0
 		for i := 0; i < len(x.Points); i++ {
 			p := x.Points[i]
-			if i >= len(prefix) {
+			if i >= len(prefix) && i >= x.BranchFrom && (x.BranchTo == 0 || i < x.BranchTo) {
 				for alt := 1; alt < p.N; alt++ {
 					cost := pre
 					if p.CurEnabled {
@@ -492,3 +514,7 @@ func Quiesce() {
 		})
 	}
 }
+
+// Run executes body once under the scheduler with the default choice (0) at every point: the
+// canonical schedule (keep running the current thread; when it blocks, the lowest enabled id).
+func Run(body func()) Result { return runOnce(nil, body) }
